@@ -236,8 +236,11 @@ theorem C20_compaction_reaches_threshold (ord : KV → List Nat) (now : Nat → 
 
 /-- **Tie to the source (regenerated on every run).**  The member-level worker (internal/dmap/compaction.go)
     calls `Compaction` until done on every DMap fragment of the primary AND of the backup partitions: the loop the
-    theorem `C20_compaction_reaches_threshold` is about, for the copies on both sides. -/
-theorem facts_tie : Facts.compaction_worker_runs_primary_and_backup_until_done = true ∧ Facts.compaction_skips_readwrite = true := by
+    theorem `C20_compaction_reaches_threshold` is about, for the copies on both sides; a fragment closed under the
+    worker (Destroy, janitor, hand-over) answers done, so the loop ends there too (before 1e49019 it never did: F45);
+    a table without live entries is selected whatever its ratio (6031b9a, F44). -/
+theorem facts_tie : Facts.compaction_worker_runs_primary_and_backup_until_done = true ∧ Facts.compaction_skips_readwrite = true ∧
+    Facts.closed_fragment_compaction_answers_done = true ∧ Facts.compaction_takes_tables_without_live_entries = true := by
   decide
 
 /-! Non-vacuity -/
